@@ -78,6 +78,22 @@ def check_network(tw, rxns, fails, tags):
         viol.append("theorem check failed on the reference values (delta >= 0, sum of class deficiencies <= delta)")
     if viol:
         fails.append({"function": "DeficiencyAnalyzer.compute_summary", "violations": viol, "rxns": rxns, "tags": tags})
+    # one analyzer object across an edit that reverses a reaction (stale caches must not survive)
+    if len(rxns) >= 2 and rxns[-1][0] and rxns[-1][1]:
+        last = sorted(H.edges)[-1]
+        r, p = rxns[-1]
+        H.remove_rxn(last)
+        H.add_rxn(dict(p), dict(r))
+        rx2 = list(rxns[:-1]) + [(p, r)]
+        ref2 = reference(rx2)
+        an.compute_summary().compute_linkage_deficiencies()
+        s2 = an._summary
+        got2 = dict(n_complexes=s2.n_complexes, n_linkage=s2.n_linkage_classes, rank=s2.stoich_rank, delta=s2.deficiency,
+                    weakly=s2.weakly_reversible, lc_defs=sorted(an._linkage_deficiencies))
+        bad = ["%s: reported %s, definition gives %s" % (k, got2[k], ref2[k]) for k in ref2 if got2[k] != ref2[k]]
+        if bad:
+            fails.append({"function": "DeficiencyAnalyzer.compute_summary", "violations": ["history (same analyzer after an edit): " + bad[0]] + bad[1:],
+                          "rxns": rx2, "tags": dict(tags, clause="history")})
     return 1 if ref["n_complexes"] > 2 else 0
 
 
@@ -94,6 +110,13 @@ def run(tw, tier, seed, only=None):
     for rxns in TEXTBOOK:
         cases += 1
         nontriv += check_network(tw, rxns, fails, {"kind": "textbook"})
+    # rings of unimolecular reactions with every rotation (the last reaction gets reversed by the history check)
+    for n in (3, 4):
+        sp = "ABCD"[:n]
+        ring = [({sp[i]: 1}, {sp[(i + 1) % n]: 1}) for i in range(n)]
+        for k in range(n):
+            cases += 1
+            nontriv += check_network(tw, ring[k:] + ring[:k], fails, {"kind": "ring"})
     for rxns in gen.small_networks(3, 2, (1, 2) if tier != "quick" else (1,)):
         cases += 1
         nontriv += check_network(tw, rxns, fails, {"kind": "exhaustive"})
